@@ -303,6 +303,19 @@ theorem parseHdr_eq_some_iff {p : Params} {first : Bool} {inp rest : List UInt8}
       subst hn
       simp [parseHdr, hle]
 
+/-- `IsHeader` is decidable (through the parser). -/
+theorem isHeader_iff_parse {p : Params} {first : Bool} {n : Nat} {hdr : List UInt8} :
+    IsHeader p first n hdr ↔ parseHdr p first hdr = some (n, []) := by
+  rw [parseHdr_eq_some_iff]
+  constructor
+  · intro h; exact ⟨hdr, h, by simp⟩
+  · rintro ⟨hdr', h, e⟩
+    simp at e; subst e; exact h
+
+instance (p : Params) (first : Bool) (n : Nat) (hdr : List UInt8) :
+    Decidable (IsHeader p first n hdr) :=
+  decidable_of_iff _ isHeader_iff_parse.symm
+
 /-- Under valid parameters, the only header for `n` is the one the encoder writes. -/
 theorem isHeader_iff {p : Params} (hp : p.Valid) {first : Bool} {n : Nat} {hdr : List UInt8} :
     IsHeader p first n hdr ↔ hdr = header p first n ∧ n ≤ limit p first := by
@@ -796,5 +809,66 @@ theorem encode_length_le (p : Params) (hp : p.Valid) (d : List UInt8) :
   rw [encode_length_eq p hp]
   have := fullChunks_le p hp d
   omega
+
+/-! ### Restatements independent of `findStuff` / corollaries -/
+
+/-- `findStuff l = none` says what it should: `FE FD` is not a contiguous sublist of `l`. -/
+theorem findStuff_none_iff_not_infix {l : List UInt8} : findStuff l = none ↔ ¬ [FE, FD] <:+: l := by
+  constructor
+  · rintro h ⟨s, t, rfl⟩
+    rw [List.append_assoc, findStuff_append_none] at h
+    have := h.2.1
+    simp [findStuff_cons_cons] at this
+  · intro h
+    cases hs : findStuff l with
+    | none => rfl
+    | some i =>
+      obtain ⟨pre, post, rfl, -, -⟩ := findStuff_eq_some_iff.1 hs
+      exact absurd ⟨pre, post, by simp⟩ h
+
+/-- Positional form: no index holds `FE` with `FD` right after it. -/
+theorem findStuff_none_iff_getElem {l : List UInt8} :
+    findStuff l = none ↔ ∀ i, ¬ (l[i]? = some FE ∧ l[i + 1]? = some FD) := by
+  induction l with
+  | nil => simp
+  | cons a t ih =>
+    rw [findStuff_cons_none, ih]
+    constructor
+    · rintro ⟨h1, h2⟩ i
+      cases i with
+      | zero => simpa [List.head?_eq_getElem?] using h2
+      | succ j => simpa using h1 j
+    · intro h
+      refine ⟨fun i => by simpa using h (i + 1), ?_⟩
+      simpa [List.head?_eq_getElem?] using h 0
+
+/-- Every byte string is either rejected, or mapped to exactly the data the format
+defines for it. -/
+theorem decode_none_iff {p : Params} {b : List UInt8} : decode p b = none ↔ ¬ ∃ d, Decodes p b d := by
+  constructor
+  · rintro h ⟨d, hd⟩; rw [decode_iff.2 hd] at h; simp at h
+  · intro h
+    cases hd : decode p b with
+    | none => rfl
+    | some d => exact absurd ⟨d, decode_iff.1 hd⟩ h
+
+/-- Bytes determine data, and (under valid parameters) data determines bytes. -/
+theorem wf_unique {p : Params} (hp : p.Valid) {b b' d d' : List UInt8}
+    (h : WellFormed p b d) (h' : WellFormed p b' d') : b = b' ↔ d = d' := by
+  constructor
+  · rintro rfl; exact decodes_unique (wf_decodes h) (wf_decodes h')
+  · rintro rfl; rw [(wf_iff_encode hp).1 h, (wf_iff_encode hp).1 h']
+
+/-- `b` is the encoder's output for `d` iff it is the canonical encoding of `d`. -/
+theorem encode_eq_iff_wf {p : Params} (hp : p.Valid) {b d : List UInt8} :
+    encode p d = b ↔ WellFormed p b d := by
+  rw [wf_iff_encode hp]; exact eq_comm
+
+/-- The encoder is injective. -/
+theorem encode_injective {p : Params} (hp : p.Valid) {d d' : List UInt8}
+    (h : encode p d = encode p d') : d = d' := by
+  have := decode_encode p hp d
+  rw [h, decode_encode p hp d'] at this
+  exact (Option.some.inj this).symm
 
 end Woodpile.Hcobs.Spec
